@@ -36,6 +36,8 @@ Prog(d) == [sc |-> <<"f64", "f32">>, regs |-> <<d>> \o [i \in 1..Len(keys) |-> T
 \* inputs that never reach the field loop (not an object) or fail inside it (a field of the wrong type): always rejected
 ProgM(d, kind) == [sc |-> <<"f64", "f32">>, regs |-> <<d, Tv(kind)>> \o [i \in 1..18 |-> Nil],
                    calls |-> <<Call("serde_dec_malformed", "m", <<1, 2>>, 10)>>]
-EmitMalformed == (phase = "feed" /\ keys = <<>>) => \A i \in 1..3 : \A kind \in MalformedKinds : PrintT(<<"REPLAY", ToJson(ProgM(Decs[i], kind))>>)
+EmitMalformed == (phase = "feed" /\ keys = <<>>) => \A i \in 1..3 : /\ \A kind \in MalformedKinds : PrintT(<<"REPLAY", ToJson(ProgM(Decs[i], kind))>>)
+                                                                /\ PrintT(<<"REPLAY", ToJson([sc |-> <<"f64", "f32">>, regs |-> <<Decs[i]>> \o [j \in 1..19 |-> Nil],
+                                                                                                calls |-> <<Call("serde_flatten", "m", <<1>>, 10)>>])>>)
 Emit == phase = "done" => \A i \in 1..3 : PrintT(<<"REPLAY", ToJson(Prog(Decs[i]))>>)
 =============================================================================
